@@ -147,6 +147,17 @@ Example c19_sent_date_as_written :
   /\ search_line [KOr (KDate true CBefore (d2024 "2")) (KDate true CSince (d2024 "3"))] zone_mb = ROk [1; 2].
 Proof. exact sent_date_as_written. Qed.
 
+(** a copied message (same text, byte-identical flags, listed twice): every
+    entry is judged on its own sequence number, UID and internal date *)
+Example c19_copied_entries_on_their_own :
+  classify_line [KOr (one_ "2") (KHdr HFrom (S_ "carol"))] copy_mb = None
+  /\ search_line [one_ "1"] copy_mb = ROk [1] /\ search_line [one_ "2"] copy_mb = ROk [2]
+  /\ search_line [KNot (one_ "1")] copy_mb = ROk [2; 3]
+  /\ search_line [KOr (one_ "2") (KHdr HFrom (S_ "carol"))] copy_mb = ROk [2; 3]
+  /\ search_line [KUid [SRange (SNum (S_ "2")) (SNum (S_ "3"))]] copy_mb = ROk [2; 3]
+  /\ search_line [KDate false COn (S_ "1", 10, S_ "2026")] copy_mb = ROk [1].
+Proof. exact copied_entries_on_their_own. Qed.
+
 (** non-vacuity: a program of the fragment with NOT, OR, a range, a UID set,
     a keyword, a date, a size and a string key satisfies every hypothesis of
     c19_search_cmd_exact on the witness mailbox, and selects a proper subset *)
